@@ -39,7 +39,7 @@ def load_configs(ctx, names):
 def first_party(f):
     """A function with a body that lives in the analysed tree (the extractor only walks the tree's roots)."""
     from lib import facts as _F
-    return "blocks" in f and f.get("file", "").startswith((_F.REPO + "/", "<amalgamated>"))
+    return "blocks" in f and f.get("file", "").startswith((_F.REPO + "/", "<amalgamated>", _F.VERIF + "/fixtures/"))
 
 
 def term_cond(b):
